@@ -9,8 +9,11 @@ use std::{
     panic::{catch_unwind, AssertUnwindSafe},
     pin::Pin,
     task::{Context, Poll, Waker},
-    time::{Duration, Instant},
+    time::Duration,
 };
+
+// under --cfg deadpool_verif the pool reads its instants from tokio's paused clock
+use tokio::time::Instant;
 
 use deadpool::managed::{
     Hook, HookError, HookResult, Manager, Metrics, Object, Pool, PoolError, QueueMode,
